@@ -70,4 +70,16 @@ var plans = map[string]*plan{
 		Exhaustive:     func(r *result) bool { return false },
 		Assumptions:    []string{"spec.Match (MQTT 3.1.1 section 4.7, 20 lines) is the specification; MaxQosAllowed is left at its default 2", "exhaustive only for the stated small scope; the history part is sampling"},
 	},
+	"C13": {
+		Level: "exploration",
+		Rule: "public API Wait/Ack/Acked of the five queues of sessions.Session (fed the ack kinds the service routes to each) against a FIFO list model. Exhaustive: every operation sequence of register(id)/ack(kind,id)/ack(unknown id)/collect up to depth 6 over ids {1,2} and depth 5 over {1,2,3} (thorough 7 and 6), each followed by a collect, on a fresh queue; the request object is mutated after Wait; returned entries are compared for order, state, byte-identical request/ack copies and completion token. " +
+			"Random: 10000-op histories with hundreds in flight (growth beyond 16, wrapped ring, id reuse). PINGREQ path with 1..3 outstanding pings. Concurrent: register/ack/collect goroutines, history checked with porcupine. distinct = op-shape of every 97th exhaustive sequence, in-flight buckets, overlap buckets.",
+		Quick:          []batchSpec{{Test: "TestC13", N: 10, Timeout: 15 * m}, {Test: "TestC13Conc", N: 4, Timeout: 10 * m}},
+		Thorough:       []batchSpec{{Test: "TestC13", N: 16, Timeout: 60 * m}, {Test: "TestC13Conc", N: 8, Timeout: 30 * m}, {Test: "TestC13Conc", N: 4, Race: true, Timeout: 30 * m}},
+		EvalStats:      []string{"c13.exh.sequences", "c13.rand.ops", "c13.conc.ops", "c13.ping.cases"},
+		Floors:         map[string]int64{"c13.exh.scopes_complete": 10, "c13.exh.sequences": 700000, "c13.rand.ops": 300000, "c13.rand.grew_past_256": 5, "c13.conc.histories": 250, "c13.conc.overlapping_calls": 50, "classes": 100},
+		FloorsThorough: map[string]int64{"c13.exh.scopes_complete": 10, "c13.exh.sequences": 5000000, "c13.rand.ops": 10000000, "c13.conc.histories": 5000, "classes": 100},
+		Exhaustive:     func(r *result) bool { return false },
+		Assumptions:    []string{"'terminal' is PUBACK / PUBCOMP / PUBREL / SUBACK / UNSUBACK per queue as routed by service/process.go; an entry is releasable when its most recent acknowledgement is terminal", "Acked() is called from one goroutine at a time (it returns an internal slice), as the service does"},
+	},
 }
